@@ -72,24 +72,42 @@ FileStart(s, f, cs) ==
   /\ LensOK(cs)
   /\ clen' = AddLens(cs)
   /\ content' = Put(content, f, Ids(cs)) /\ fsess' = Put(fsess, f, s)
-  /\ dec' = Put(dec, f, [new |-> {}, dedup |-> {}, prev |-> {}, pbytes |-> 0, pchunks |-> 0, nbytes |-> 0, dbytes |-> 0])
+  /\ dec' = Put(dec, f, [new |-> {}, dedup |-> {}, prev |-> {}, pbytes |-> 0, pchunks |-> 0, nbytes |-> 0, dbytes |-> 0,
+                         pend |-> <<>>])        \* pend: chunk ids of the file's pending (not yet cut) xorb
   /\ UNCHANGED <<salt, status, failed, xorbs, stored, sessPut, shardOpen, recs, finished, up, ptrs, cache>>
 
+(* C05: a dedup answer "the first n query hashes are chunks [lo, hi) of X" is truthful.  X is the file's own pending
+   xorb (ans.local; its content is what the "new" decisions since the last cut appended) or a xorb named by hash
+   (checked when its chunk list is known from an upload of this or an earlier session). *)
+Truthful(f, idx, n, ans) ==
+  LET X == IF ans.local THEN dec[f].pend ELSE xorbs[ans.x] IN
+  (ans.local \/ ans.x \in DOMAIN xorbs) =>
+     /\ ans.hi - ans.lo = n /\ ans.hi <= Len(X)
+     /\ \A i \in 1..n : X[ans.lo + i] = content[f][idx + i]
+
 (* one classification step of the deduper for chunks [idx, idx+n) of file f *)
-Decision(f, kind, idx, n, bytes) ==
+Decision(f, kind, idx, n, bytes, ans) ==
   /\ f \in DOMAIN content /\ n >= 1 /\ idx + n <= Len(content[f])
   /\ LET pos == idx..(idx + n - 1)
          b == SumLen(content[f], idx + 1, idx + n) IN
      /\ Chk("C14", bytes = b)
+     /\ Chk("C05", kind # "new" => (Truthful(f, idx, n, ans) /\ bytes = b))
      /\ CASE kind = "new" ->
                /\ Chk("C14", pos \cap (dec[f].new \cup dec[f].dedup) = {})
-               /\ dec' = [dec EXCEPT ![f].new = @ \cup pos, ![f].nbytes = @ + b]
+               /\ dec' = [dec EXCEPT ![f].new = @ \cup pos, ![f].nbytes = @ + b, ![f].pend = Append(@, content[f][idx + 1])]
           [] kind = "dedup" ->
                /\ Chk("C14", pos \cap (dec[f].new \cup dec[f].dedup) = {})
                /\ dec' = [dec EXCEPT ![f].dedup = @ \cup pos, ![f].dbytes = @ + b]
           [] kind = "prevented" ->
                dec' = [dec EXCEPT ![f].prev = @ \cup pos, ![f].pbytes = @ + b, ![f].pchunks = @ + n]
           [] OTHER -> FALSE
+  /\ UNCHANGED <<clen, content, fsess, salt, status, failed, xorbs, stored, sessPut, shardOpen, recs, finished, up, ptrs, cache>>
+
+(* cut_new_xorb while the chunk of the preceding "new" decision is being added: everything before it leaves the
+   pending xorb, that chunk becomes its first *)
+Cut(f) ==
+  /\ f \in DOMAIN dec /\ Len(dec[f].pend) >= 1
+  /\ dec' = [dec EXCEPT ![f].pend = <<@[Len(@)]>>]
   /\ UNCHANGED <<clen, content, fsess, salt, status, failed, xorbs, stored, sessPut, shardOpen, recs, finished, up, ptrs, cache>>
 
 PutStart(s, x, xref, cs, ok) ==
